@@ -200,8 +200,8 @@ def templates(version, tier, want='all', part=0, of=1):
         # the twins of operators that stay (jump, ^2, gradient, single substitution) are exercised in the trees with one operator only
         U = [(n, op) for n, op in U if n not in ('mean', 'pow-1', 'surfgrad', 'subs-pq')]
     byops = {0: [(l, 1) for l in LC]}
-    maxleaves = 3 if tier == 'quick' else 4
     for nops in range(1, maxops + 1):
+        maxleaves = 3 if nops <= 2 else 2     # trees with three operators (thorough tier) are chains over at most two leaves
         last = nops == maxops
         emit = nops >= 2
         cur = []
@@ -463,9 +463,11 @@ def bounds(tier, ops, nleaves, ns, version=2):
         return (ns if ops <= 1 else (1 if q else 2)), 99
     if ops <= 1 and nleaves == 2:
         return (1 if q else 2), 6
-    if version == 1 and q and nleaves >= 3 and ops >= 2:
-        return 0, 3
-    return (0 if q else 1), (4 if q else 5)
+    if version == 1 and nleaves >= 3 and ops >= 2:
+        return 0, 3    # v1 has many more constructs; its three-leaf trees are kept to three index positions
+    if q:
+        return 0, 4
+    return (1 if ops <= 2 else 0), 4
 
 
 def count_leaves(node):
